@@ -426,7 +426,7 @@ ANCHORS: dict[str, dict[str, set | None]] = {
             "hugr.utils": {"ser_it", "deser_it"}},
     "C06": {"hugr.ops": {"outer_signature", "inner_signature", "num_out", "port_kind", "port_type", "nth_inputs", "nth_outputs", "_function_port_offset", "_inputs",
                          "cached_signature", "_sig_port_type", "signature"}, "hugr.tys": {"flip"}},
-    "C07": {"hugr.tys": {"type_bound", "_to_opaque", "__init__"}, "hugr._serialization.tys": {"join"}, "hugr._serialization.extension": {"deserialize"}, "hugr.ext": {"bound"}, "hugr.std.collections.array": ALL, "hugr.std.collections.list": ALL,
+    "C07": {"hugr.tys": {"type_bound", "_to_opaque", "__init__", "resolve"}, "hugr._serialization.tys": {"join"}, "hugr._serialization.extension": {"deserialize"}, "hugr.ext": {"bound"}, "hugr.std.collections.array": ALL, "hugr.std.collections.list": ALL,
             "hugr.std.collections.static_array": ALL},
     "C08": {"hugr.hugr.base": {"insert_hugr"}, "hugr.build.dfg": {"_insert_nested_impl", "insert_nested", "insert_cfg", "insert_conditional", "insert_tail_loop"}},
     "C09": {"hugr.envelope": ALL, "hugr.package": {"from_bytes", "from_str", "to_bytes", "to_str", "_to_serial"},
@@ -579,6 +579,48 @@ def unbound_after_branches(ctx, rule: str, modules: list[str], only=None) -> int
     return n
 
 
+def generators_kept(ctx, rule: str, modules: list[str], only=None) -> int:
+    """a generator expression kept as an ELEMENT of a list / tuple / dict display or of a comprehension's result (rows of a table,
+    fields of records) is a one-shot iterator stored where a sequence is read again and again: the first reader empties it, the
+    second sees nothing.  (A generator handed over as a whole argument is the receiver's business: L2 judges the receiver.)
+    Judged on canonical bodies: private helpers that return a generator are seen through."""
+    prog = ctx.program
+    n = 0
+    for mn in modules:
+        m = prog.module(mn)
+        owners = {}
+        for c in m.classes.values():
+            for f_ in c.methods.values():
+                owners[id(f_)] = c
+        for fn in [x for x in ast.walk(m.tree) if isinstance(x, ast.FunctionDef)]:
+            if only is not None and not only(mn, "", fn.name):
+                continue
+            cls_ = owners.get(id(fn))
+            if not (cls_ is not None or (fn.name in m.functions and m.functions[fn.name] is fn)):
+                continue
+            try:
+                body_fn = ctx.canon.fn(fn, m, cls_)
+            except Exception:
+                body_fn = fn
+            n += 1
+            for node in ast.walk(body_fn):
+                elems = []
+                if isinstance(node, (ast.List, ast.Tuple, ast.Set)) and isinstance(getattr(node, "ctx", ast.Load()), ast.Load):
+                    elems = list(node.elts)
+                elif isinstance(node, ast.Dict):
+                    elems = list(node.values)
+                elif isinstance(node, (ast.ListComp, ast.SetComp)):
+                    elems = [node.elt]
+                elif isinstance(node, ast.DictComp):
+                    elems = [node.value]
+                for e in elems:
+                    if isinstance(e, ast.GeneratorExp):
+                        ctx.fail(rule, f"{mn}.{fn.name}: generator kept as an element", m.path, getattr(fn, "lineno", 1),
+                                 f"`{u(e)[:80]}` is stored as an element of `{u(node)[:80]}`: a one-shot iterator where a sequence is expected -- "
+                                 "whoever reads it first empties it for everybody else", fn, found=u(e)[:120])
+    return n
+
+
 def arm(ctx, prop: str | None = None) -> None:
     """arm the two generic lints on the functions the property is about, as rules <prop>.L1 / <prop>.L2"""
     prop = prop or ctx.prop
@@ -608,6 +650,10 @@ def arm(ctx, prop: str | None = None) -> None:
     ctx.rule(l5, "no local is read after an if / match that binds it on some of the arms that go on but not on all (functions the property is about)", floor=1)
     n6 = unbound_after_branches(ctx, l5, mods, only=only)
     ctx.ok(l5, f"{prop}: branch-bound locals in {len(mods)} anchor modules", f"{n6} functions inspected")
+    l6 = f"{prop}.L6"
+    ctx.rule(l6, "no generator expression is kept as an element of a display / comprehension result (functions the property is about)", floor=1)
+    n7 = generators_kept(ctx, l6, mods, only=only)
+    ctx.ok(l6, f"{prop}: displays in {len(mods)} anchor modules", f"{n7} functions inspected")
     l4 = f"{prop}.L4"
     ctx.rule(l4, "no identity comparison (`is`) between two values other than None / booleans / sentinels / classes (functions the property is about)", floor=1)
     n5 = identity_of_values(ctx, l4, mods, only=only)
